@@ -1,4 +1,193 @@
-import PsV.Model.Nnls
+import PsV.Proofs.Nnls
+/-!
+# C11 — the non-negative least-squares solvers return the constrained optimum
+
+Property theorems only.  `qf A b z = ½ zᵀAz − bᵀz`, `gradM A b z = Az − b`, `SPD`, `KKT`, `TolKKT` are defined in
+`PsV/Proofs/Nnls.lean`; `kktCheck`, `refNnls`, `distCheck`, `block3Run` are the executable definitions of
+`PsV/Model/Nnls.lean` that the driver runs on the vectors returned by the C solvers.
+
+What is **not** claimed: that the four C solvers converge for every input.  The check is certificate checking with a
+proved checker (`kktCheck_sound` + `kkt_tol_gap` + `kkt_tol_dist` + `kkt_unique_min`): whatever vector a solver
+returns is accepted only if the verified checker accepts it.  Exits of BLOCK3:
+* `B3Exit.converged`  (`if (nH2 == 0 && optimal_on_F) break;`) — convergence: `block3_exit_kkt` (with exact solves
+  the returned point satisfies the tolerance-KKT conditions);
+* `B3Exit.iterCap`    (`iter == max_iter = 120`) — iteration cap, no optimality claim (`block3_cap_exit_not_kkt`
+  exhibits a capped run that is not a KKT point);
+* `B3Exit.innerFuel`  — model-only bound on the `while (!feasible)` loop.
+All three return a component-wise non-negative vector (`block3_nonneg_invariant`), which is what C10 needs.
+-/
 namespace PsV
-theorem c11_stub : True := trivial
+open Matrix Nnls
+
+section Exact
+variable {n : ℕ} {α : Type} [Field α] [LinearOrder α] [IsStrictOrderedRing α]
+
+/-- **KKT ⇒ unique global minimiser.**  `A` symmetric positive definite, `x ≥ 0`, `g = Ax − b` with `g_i = 0` where
+`x_i > 0` and `g_i ≥ 0` where `x_i = 0`: then `x` minimises `½zᵀAz − bᵀz` over `z ≥ 0`, and any `z ≥ 0` with the
+same value is `x`. -/
+theorem kkt_unique_min (A : Matrix (Fin n) (Fin n) α) (b x : Fin n → α) (hA : SPD A) (hx : KKT A b x) :
+    ∀ z : Fin n → α, (∀ i, 0 ≤ z i) → qf A b x ≤ qf A b z ∧ (qf A b z = qf A b x → z = x) := by
+  intro z hz
+  obtain ⟨hx0, hg0, hcomp⟩ := hx
+  have hd := qf_diff hA.1 b x z
+  have hlin : 0 ≤ (z - x) ⬝ᵥ gradM A b x := by
+    rw [dot_sub_split]
+    have h1 : 0 ≤ z ⬝ᵥ gradM A b x := Finset.sum_nonneg fun i _ => mul_nonneg (hz i) (hg0 i)
+    have h2 : x ⬝ᵥ gradM A b x = 0 := by
+      apply Finset.sum_eq_zero
+      intro i _
+      rcases lt_or_eq_of_le (hx0 i) with h | h
+      · rw [hcomp i h, mul_zero]
+      · rw [← h, zero_mul]
+    rw [h2, sub_zero]; exact h1
+  have hquad : 0 ≤ (z - x) ⬝ᵥ A *ᵥ (z - x) := hA.spsd.2 _
+  constructor
+  · linarith
+  · intro heq
+    by_contra hne
+    have hne' : z - x ≠ 0 := sub_ne_zero.mpr hne
+    have := hA.2 _ hne'
+    linarith
+
+/-- **Tolerance-KKT ⇒ explicit optimality gap.**  If `x ≥ 0`, `g_i ≥ −tol_i` and `g_i ≤ tol_i` where `x_i > 0`, then for
+every feasible `z` (in particular the minimiser `x*`): `f x − f z ≤ Σ_i tol_i (x_i + z_i)`. -/
+theorem kkt_tol_gap (A : Matrix (Fin n) (Fin n) α) (b x tol : Fin n → α) (hA : SPSD A) (hx : TolKKT A b x tol)
+    (z : Fin n → α) (hz : ∀ i, 0 ≤ z i) :
+    qf A b x - qf A b z ≤ ∑ i, tol i * (x i + z i) := by
+  obtain ⟨hx0, hglo, hghi⟩ := hx
+  have hd := qf_diff hA.1 b x z
+  have hquad : 0 ≤ (z - x) ⬝ᵥ A *ᵥ (z - x) := hA.2 _
+  have hlin : -(∑ i, tol i * (x i + z i)) ≤ (z - x) ⬝ᵥ gradM A b x := by
+    rw [dot_sub_split, ← Finset.sum_neg_distrib]
+    simp only [dotProduct]
+    rw [← Finset.sum_sub_distrib]
+    apply Finset.sum_le_sum
+    intro i _
+    have h1 : -(tol i) * z i ≤ z i * gradM A b x i := by
+      have := mul_le_mul_of_nonneg_left (hglo i) (hz i)
+      linarith
+    have h2 : x i * gradM A b x i ≤ tol i * x i := by
+      rcases lt_or_eq_of_le (hx0 i) with h | h
+      · have := mul_le_mul_of_nonneg_left (hghi i h) (le_of_lt h)
+        linarith
+      · rw [← h]; simp
+    linarith
+  linarith
+
+/-- **Tolerance-KKT ⇒ distance to the minimiser** (in the energy norm of `A`): if `xs` is an exact KKT point then
+`½ (x − xs)ᵀ A (x − xs) ≤ Σ_i tol_i (x_i + xs_i)`.  This is the relation the driver decides (`distCheck`). -/
+theorem kkt_tol_dist (A : Matrix (Fin n) (Fin n) α) (b x xs tol : Fin n → α) (hA : SPSD A) (hx : TolKKT A b x tol)
+    (hxs : KKT A b xs) :
+    (1/2) * ((x - xs) ⬝ᵥ A *ᵥ (x - xs)) ≤ ∑ i, tol i * (x i + xs i) := by
+  have hgap := kkt_tol_gap A b x tol hA hx xs hxs.1
+  obtain ⟨hs0, hsg, hscomp⟩ := hxs
+  have hd := qf_diff hA.1 b xs x
+  have hlin : 0 ≤ (x - xs) ⬝ᵥ gradM A b xs := by
+    rw [dot_sub_split]
+    have h1 : 0 ≤ x ⬝ᵥ gradM A b xs := Finset.sum_nonneg fun i _ => mul_nonneg (hx.1 i) (hsg i)
+    have h2 : xs ⬝ᵥ gradM A b xs = 0 := by
+      apply Finset.sum_eq_zero
+      intro i _
+      rcases lt_or_eq_of_le (hs0 i) with h | h
+      · rw [hscomp i h, mul_zero]
+      · rw [← h, zero_mul]
+    rw [h2, sub_zero]; exact h1
+  linarith
+
+end Exact
+
+/-! ## the executable checker and the reference solver (at `ℚ`, the carrier the driver runs) -/
+
+/-- **Soundness of the executable checker**: `kktCheck … = true` implies the tolerance-KKT predicate for the matrix
+and vectors it was given. -/
+theorem kktCheck_sound (n : ℕ) (A : Mat) (b x tol : Vec) (h : kktCheck n A b x tol = true) :
+    TolKKT (toMat n A) (toVec n b) (toVec n x) (toVec n tol) := by
+  unfold kktCheck at h
+  rw [List.all_eq_true] at h
+  have key : ∀ i : Fin n, 0 ≤ x i ∧ -(tol i) ≤ grad n A b x i ∧ (x i ≤ 0 ∨ grad n A b x i ≤ tol i) := by
+    intro i
+    have := h i (List.mem_range.mpr i.2)
+    simp only [Bool.and_eq_true, Bool.or_eq_true, decide_eq_true_eq] at this
+    exact ⟨this.1.1, this.1.2, this.2⟩
+  refine ⟨fun i => (key i).1, fun i => ?_, fun i hi => ?_⟩
+  · rw [← grad_eq]; exact (key i).2.1
+  · rw [← grad_eq]
+    rcases (key i).2.2 with h0 | h1
+    · exact absurd hi (not_lt.mpr h0)
+    · exact h1
+
+/-- with tolerance 0 the checker certifies exact KKT -/
+theorem kktCheck_zero_sound (n : ℕ) (A : Mat) (b x : Vec) (h : kktCheck n A b x (fun _ => 0) = true) :
+    KKT (toMat n A) (toVec n b) (toVec n x) := by
+  obtain ⟨h0, h1, h2⟩ := kktCheck_sound n A b x _ h
+  refine ⟨h0, fun i => ?_, fun i hi => ?_⟩
+  · have := h1 i; simpa [toVec] using this
+  · have a := h1 i; have c := h2 i hi
+    simp only [toVec, neg_zero] at a c
+    exact le_antisymm c a
+
+/-- the executable distance test is the relation of `kkt_tol_dist` -/
+theorem distCheck_iff (n : ℕ) (A : Mat) (tol x z : Vec) :
+    distCheck n A tol x z = true ↔
+      (1/2) * ((toVec n x - toVec n z) ⬝ᵥ (toMat n A) *ᵥ (toVec n x - toVec n z))
+        ≤ ∑ i, toVec n tol i * (toVec n x i + toVec n z i) := by
+  unfold distCheck
+  rw [decide_eq_true_eq, halfQuad_eq, gapBound_eq]
+  rfl
+
+theorem refSearch_sound (n : ℕ) (A : Mat) (b : Vec) (fuel mask : ℕ) (xa : Array ℚ)
+    (h : refSearch n A b fuel mask = some xa) : kktCheck n A b (at0 xa) (fun _ => 0) = true := by
+  induction fuel generalizing mask with
+  | zero => simp [refSearch] at h
+  | succ f ih =>
+    unfold refSearch at h
+    cases ht : tryMask n A b mask with
+    | none => rw [ht] at h; exact ih _ h
+    | some y =>
+      rw [ht] at h
+      have hy : y = xa := by simpa using h
+      subst hy
+      unfold tryMask at ht
+      cases hs : solveOn n A b (maskSet n mask) with
+      | none => rw [hs] at ht; simp at ht
+      | some w =>
+        rw [hs] at ht
+        simp only at ht
+        split at ht
+        · rename_i hc
+          have : w = y := by simpa using ht
+          subst this
+          simp only [Bool.and_eq_true] at hc
+          exact hc.2
+        · simp at ht
+
+/-- **Soundness of the reference solver**: whatever `refNnls` returns satisfies the exact KKT conditions … -/
+theorem refNnls_sound (n : ℕ) (A : Mat) (b : Vec) (xa : Array ℚ) (h : refNnls n A b = some xa) :
+    KKT (toMat n A) (toVec n b) (toVec n (at0 xa)) :=
+  kktCheck_zero_sound n A b _ (refSearch_sound n A b _ _ xa h)
+
+/-- … hence, for a symmetric positive-definite matrix, it *is* the unique constrained minimiser. -/
+theorem refNnls_is_minimiser (n : ℕ) (A : Mat) (b : Vec) (xa : Array ℚ) (hA : SPD (toMat n A))
+    (h : refNnls n A b = some xa) (z : Fin n → ℚ) (hz : ∀ i, 0 ≤ z i) :
+    qf (toMat n A) (toVec n b) (toVec n (at0 xa)) ≤ qf (toMat n A) (toVec n b) z ∧
+      (qf (toMat n A) (toVec n b) z = qf (toMat n A) (toVec n b) (toVec n (at0 xa)) → z = toVec n (at0 xa)) :=
+  kkt_unique_min _ _ _ hA (refNnls_sound n A b xa h) z hz
+
+/-- **What the correspondence establishes per accepted vector**: if the driver's three decisions succeed for the
+(projected) vector `x` returned by a C solver — `kktCheck` with tolerance `tol`, `refNnls = some xs`, `distCheck` —
+then `x` is a tolerance-KKT point, its objective value exceeds the constrained minimum by at most
+`Σ tol_i (x_i + xs_i)`, and `xs` is the unique constrained minimiser. -/
+theorem C11_certificate (n : ℕ) (A : Mat) (b x tol : Vec) (xa : Array ℚ) (hA : SPD (toMat n A))
+    (hk : kktCheck n A b x tol = true) (hr : refNnls n A b = some xa) :
+    TolKKT (toMat n A) (toVec n b) (toVec n x) (toVec n tol) ∧
+    (∀ z : Fin n → ℚ, (∀ i, 0 ≤ z i) →
+        qf (toMat n A) (toVec n b) (toVec n x) - qf (toMat n A) (toVec n b) z
+          ≤ ∑ i, toVec n tol i * (toVec n x i + z i)) ∧
+    distCheck n A tol x (at0 xa) = true := by
+  have hT := kktCheck_sound n A b x tol hk
+  have hK := refNnls_sound n A b xa hr
+  refine ⟨hT, fun z hz => kkt_tol_gap _ _ _ _ hA.spsd hT z hz, ?_⟩
+  rw [distCheck_iff]
+  exact kkt_tol_dist _ _ _ _ _ hA.spsd hT hK
+
 end PsV
